@@ -268,14 +268,16 @@ func (m *RTRIPPrefix) Serialize() ([]byte, error) {
 func NewRTRIPPrefix(prefix netip.Addr, prefixLen, maxLen uint8, as uint32, flags uint8) *RTRIPPrefix {
 	var pduType uint8
 	var pduLen uint32
-	if prefix.Is4() && prefixLen <= 32 {
+	// maxLen is checked like DecodeFromBytes checks it, so that every PDU
+	// built here can be parsed back.
+	if prefix.Is4() && prefixLen <= maxLen && maxLen <= 32 {
 		pduType = RTR_IPV4_PREFIX
 		pduLen = RTR_IPV4_PREFIX_LEN
-	} else if prefix.Is6() && prefixLen <= 128 {
+	} else if prefix.Is6() && prefixLen <= maxLen && maxLen <= 128 {
 		pduType = RTR_IPV6_PREFIX
 		pduLen = RTR_IPV6_PREFIX_LEN
 	} else {
-		// TODO: return error; !prefix.IsValid() or invalid prefix length
+		// TODO: return error; !prefix.IsValid() or invalid prefix / max length
 		return nil
 	}
 
